@@ -123,8 +123,8 @@ def run(ctx):
         "distinct_nontrivial": len(set(t for t, a, _ in q_res if re.search(r":\d+:\d+\+\d+", a))),
         "rule": "accepted generated programs (parameters, let, tuple / struct (shorthand and `as`) / variant patterns at every nesting, or-patterns over variants, struct patterns, tuples and nested or-patterns (first and later alternative), if-let, lambda parameters, captures in nested lambdas) x every local identifier occurrence as query / rename position; non-trivial = distinct module with at least one binding that has a use",
         "samples": samples, "traces_validated_against_impl": len(ssa_res) + len(q_res), "histograms": hist,
-        "partial": ["rename_preserves_resolution (general, accepted modules, any number of bindings with the same name) does not cover the lambda-capture tables; rename_preserves_resolution_partial (name bound once) does",
-                    "rename theorems are stated on the event view and, via rename_tree_commutes, on the expression/pattern trees of Model/Scope.lean; member parameters and the printed text are reached by the rn oracle"],
+        "partial": ["rename_preserves_resolution (general) is for modules accepted by scope analysis; rename_preserves_resolution_partial (name bound once) also covers rejected modules",
+                    "rename theorems are stated on the event view and, via rename_tree_commutes / rename_member_commutes, on the trees of Model/Scope.lean; position search (location_cover.rs) and the printed text are reached by the q / rn protocols"],
         "pending": ["printer round trip of the renamed module (C08/C09)"]})
     ctx.assumptions += ["new name is fresh and not a keyword (the property's precondition); rewrite::rename itself only checks lexical shape (fresh_check_unsound_counterexample)",
                         "single-module ServerState"]
